@@ -140,9 +140,66 @@ macro_rules! tuple_facts {
     }};
 }
 
+/// Correct programs at the edges of the type-level arithmetic, *instantiated and run* (not only
+/// type-checked): an error that appears only at monomorphisation time — a const assertion inside
+/// a generic body, say — passes `cargo check` and fails here, when this binary is built.
+fn edge_instantiations(st: &mut Stats) {
+    use generic_array::sequence::{Concat, Lengthen, Remove, Shorten, Split};
+    use generic_array::{arr, GenericArray};
+    use vkit::typenum::U;
+    st.check_case("C12", "edge_instantiations", "i32/String", || "C12 edge instantiations (split at 0 and at N, concat with empty, pop to empty, remove the only element)".to_string(), true, || {
+        let a = arr![1, 2, 3];
+        let (h, t): (GenericArray<i32, U<3>>, GenericArray<i32, U<0>>) = Split::split(a);
+        if h.len() != 3 || t.len() != 0 {
+            return Err("LengthMismatch: split at N".into());
+        }
+        let (h, t): (GenericArray<i32, U<0>>, GenericArray<i32, U<3>>) = Split::split(h);
+        let _ = (h, &t);
+        let mut b = arr![1, 2, 3];
+        {
+            let (h, t): (&GenericArray<i32, U<3>>, &GenericArray<i32, U<0>>) = Split::split(&b);
+            let _ = (h.len(), t.len());
+        }
+        {
+            let (h, t): (&mut GenericArray<i32, U<3>>, &mut GenericArray<i32, U<0>>) = Split::split(&mut b);
+            h[0] = 9;
+            let _ = t.len();
+        }
+        {
+            let (h, t): (&mut GenericArray<i32, U<0>>, &mut GenericArray<i32, U<3>>) = Split::split(&mut b);
+            t[2] = 7;
+            let _ = h.len();
+        }
+        let mut e: GenericArray<String, U<0>> = arr![];
+        {
+            let (x, y): (&GenericArray<String, U<0>>, &GenericArray<String, U<0>>) = Split::split(&e);
+            let _ = (x.len(), y.len());
+        }
+        {
+            let (x, y): (&mut GenericArray<String, U<0>>, &mut GenericArray<String, U<0>>) = Split::split(&mut e);
+            let _ = (x.len(), y.len());
+        }
+        let (x, y): (GenericArray<String, U<0>>, GenericArray<String, U<0>>) = Split::split(e);
+        let z: GenericArray<String, U<0>> = Concat::concat(x, y);
+        let one: GenericArray<String, U<1>> = z.append(String::from("a"));
+        let (none, s): (GenericArray<String, U<0>>, String) = one.pop_back();
+        let one: GenericArray<String, U<1>> = none.prepend(s);
+        let (s, none): (String, GenericArray<String, U<0>>) = one.pop_front();
+        let one: GenericArray<String, U<1>> = Concat::concat(none, arr![s]);
+        let (s, none): (String, GenericArray<String, U<0>>) = one.remove(0);
+        let one: GenericArray<String, U<1>> = Concat::concat(arr![s], none);
+        let (s, _none): (String, GenericArray<String, U<0>>) = one.swap_remove(0);
+        if s != "a" || b != arr![9, 2, 7] {
+            return Err("ContentMismatch: edge instantiations".into());
+        }
+        Ok(())
+    });
+}
+
 fn main() {
     let args = Args::parse();
     let mut st = Stats::new("traitprobe", &args);
+    edge_instantiations(&mut st);
     let mut v: Vec<Fact> = Vec::new();
     auto_lens!(&mut v, [0, 1, 2, 3, 8, 16, 1024]);
     len_facts!(&mut v, 0, 1, 0);
